@@ -5,7 +5,7 @@
 (*   [ev |-> "reset", case |-> n]                                          *)
 (*   [ev |-> "step", case |-> n, op |-> <op record>, ret |-> STRING,       *)
 (*    b |-> table before, a |-> table after,         (projections)         *)
-(*    rd |-> [it, fe, fc, gr : [ret, cells]],        (ReadAll only)        *)
+(*    rd |-> [it, fe, fc, gr, gt, fr, pr : [ret, cells]], (ReadAll only)   *)
 (*    cp |-> [o0, o1, c0, c1 : STRING],              (CopyTable only)      *)
 (*    sv |-> [ret, tbl]]      (optional: the serialised w:tbl, last step)   *)
 (* Every step carries the projection of the table before the call, so the   *)
@@ -30,6 +30,13 @@ Judge(e) ==
                {<<"C09", "Iterator", sh, f>> : f \in Viol_Read(e.b, e.rd.it)}
                \cup {<<"C09", "ForEach", sh, f>> : f \in Viol_Read(e.b, e.rd.fe)}
                \cup {<<"C09", "FindCells", sh, f>> : f \in Viol_Read(e.b, e.rd.fc)}
+               \cup {<<"C09", "GetCellText", sh, f>> : f \in Viol_Read(e.b, e.rd.gt)}
+               \cup {<<"C09", "ForEachInRow", sh, f>> :
+                       f \in (IF IsPlain(e.b) THEN Viol_Read(e.b, e.rd.fr)
+                              ELSE Viol_Read(e.b, e.rd.fr) \cap {"panic"})}
+               \* the remaining read accessors (cell, row and table getters, column traversal, text search), with indexes
+               \* from -1 to n: whatever they return, they return
+               \cup {<<"C09", "Getters", sh, f>> : f \in Viol_Read(e.b, e.rd.pr) \cap {"panic"}}
                \cup {<<"C09", "GetCellRange", sh, f>> :
                        f \in (IF IsPlain(e.b) THEN Viol_Read(e.b, e.rd.gr)
                               ELSE Viol_Read(e.b, e.rd.gr) \cap {"panic"})}
